@@ -221,6 +221,32 @@ def kind_of(v):
     return "real"
 
 
+def struct_eq(I, a, b):
+    """decide string equality structurally when one side is a concrete string and the other is built from atoms"""
+    if I is None or not I.cfg.get("atoms"):
+        return None
+    from . import models_str as S
+    for x, y in ((a, b), (b, a)):
+        if isinstance(y, (str, bytes)) and isinstance(x, SStr):
+            sp = S.struct_parts(I, x.term)
+            if sp is None:
+                return None
+            yv = y.decode("latin-1") if isinstance(y, bytes) else y
+            if S.struct_min_len(I, sp) > len(yv):
+                return False
+            # a character of y outside every part's alphabet decides inequality
+            lits = "".join(v for k, v in sp if k == "lit")
+            alpha = set(lits)
+            for k, v in sp:
+                if k == "atom":
+                    alpha |= set(S.atom_alpha(I, v)[0])
+            if any(c not in alpha for c in yv):
+                return False
+            if any(c not in yv for c in lits):
+                return False
+    return None
+
+
 def values_equal(I, a, b):
     """python == as z3 Bool / python bool (no branching)."""
     ka, kb = kind_of(a), kind_of(b)
@@ -251,6 +277,9 @@ def values_equal(I, a, b):
             if isinstance(a, SStr) or isinstance(b, SStr):
                 raise Undecided("comparison between string-bytes and array-bytes")
             return norm_bool(sb_eq(as_sbytes(a), as_sbytes(b)))
+        r = struct_eq(I, a, b)
+        if r is not None:
+            return r
         return norm_bool(as_sstr(a).term == as_sstr(b).term)
     if ka in ("tuple", "list"):
         if len(a) != len(b):
